@@ -105,6 +105,14 @@ pub fn families(tier: Tier) -> Vec<Family> {
         h.iter().filter(|o| o.dur >= 1 << 31 || o.off == i32::MIN || o.off == i32::MAX || o.size >= 255).count() <= 1
     }
     fams.push(Family { name: "f:extremes_one_hot".into(), movie: one.clone(), alphabet: fal, max_len: 3, filter: Some(at_most_one_extreme) });
+
+    // (g) writes the muxer refuses on a KNOWN track: with track timescale 1 and movie timescale 2^32-1 the track duration
+    // in movie units leaves 64 bits after two maximal durations; refused and accepted writes interleave on two tracks
+    let mg = MovieSpec::new(u32::MAX, vec![TrackSpec::new(Kind::Avc, 1), TrackSpec::new(Kind::Aac, 48000)]);
+    let mut gal = ops_product(1, &[1, 2], &[u32::MAX, 3, 1], &[0, 4], &[true, false]);
+    gal.extend(ops_product(2, &[1], &[24000], &[0], &[true]));
+    gal.extend(rejected_ops(2, &[3]));
+    fams.push(Family { name: "g:refused_on_known_track(T=1,M=2^32-1)".into(), movie: mg, alphabet: gal, max_len: if th { 4 } else { 3 }, filter: None });
     fams
 }
 
@@ -112,9 +120,20 @@ pub fn families(tier: Tier) -> Vec<Family> {
 pub fn judge(prop: &str, seed: u64, fam: &Family, h: &[Op], dup: bool, l: &mut Local) -> Option<Vec<u8>> {
     let n = fam.movie.tracks.len();
     let case = || json!({"family": fam.name, "config": fam.movie.to_json(), "history": hist_json(h), "seed": seed});
-    let expect = reference(seed, n, h);
+    l.transitions += (2 + n + h.len()) as u64;
+    let out = match mux(seed, &fam.movie, h) {
+        Ok(o) => o,
+        Err(e) => {
+            l.outcome("mux:panic_or_start_error");
+            l.violations.push(Violation::new(prop, "muxer_call_panicked", case()).obs(json!(e)));
+            return None;
+        }
+    };
+    // the reference model holds the samples of the calls the muxer accepted
+    let accepted = accepted_ops(&out.calls, n, h);
+    let expect = reference(seed, n, &accepted);
     let written: usize = expect.iter().map(|t| t.len()).sum();
-    let has_rejected = h.iter().any(|o| o.track == 0 || o.track as usize > n);
+    let has_rejected = accepted.len() != h.len();
     let mut tags: Vec<&str> = vec![];
     if expect.iter().any(|t| !t.is_empty() && t.iter().all(|s| !s.sync)) {
         tags.push("track_without_sync_sample");
@@ -129,31 +148,33 @@ pub fn judge(prop: &str, seed: u64, fam: &Family, h: &[Op], dup: bool, l: &mut L
         }
         v
     };
-    l.transitions += (2 + n + h.len()) as u64;
-    let out = match mux(seed, &fam.movie, h) {
-        Ok(o) => o,
-        Err(e) => {
-            l.outcome("mux:panic_or_start_error");
-            l.violations.push(mk("muxer_call_panicked").obs(json!(e)));
-            return None;
-        }
-    };
-    // call results
+    // call results: an unknown track id must be refused; a write to a known track may only be refused when the
+    // track duration would stop being representable (statement-level model), every other call must succeed
+    let mut acc_so_far: Vec<Op> = vec![];
     for (i, r) in out.calls.iter().enumerate() {
         let is_sample = i > n && i <= n + h.len();
-        let should_fail = is_sample && {
+        let (must_fail, may_fail) = if is_sample {
             let o = h[i - n - 1];
-            o.track == 0 || o.track as usize > n
+            if o.track == 0 || o.track as usize > n {
+                (true, true)
+            } else {
+                (false, model_may_reject(&fam.movie, &acc_so_far, &o))
+            }
+        } else {
+            (false, false)
         };
-        if r.is_ok() == should_fail {
+        if (r.is_ok() && must_fail) || (r.is_err() && !may_fail) {
             l.outcome("mux:unexpected_call_result");
-            l.violations.push(mk("call_result").obs(json!({"call_index": i, "result": format!("{:?}", r)})).exp(json!(if should_fail { "Err" } else { "Ok" })));
+            l.violations.push(mk("call_result").obs(json!({"call_index": i, "result": format!("{:?}", r)})).exp(json!(if must_fail { "Err" } else { "Ok" })));
             return None;
         }
+        if is_sample && r.is_ok() {
+            acc_so_far.push(h[i - n - 1]);
+        }
     }
-    // rejected calls leave no trace (differential)
+    // rejected calls leave no trace (differential): the same output as muxing only the accepted calls
     if has_rejected {
-        let filtered: Vec<Op> = h.iter().copied().filter(|o| o.track >= 1 && o.track as usize <= n).collect();
+        let filtered: Vec<Op> = accepted.clone();
         match mux(seed, &fam.movie, &filtered) {
             Ok(o2) if o2.bytes == out.bytes => l.outcome("rejected:no_trace"),
             Ok(_) => {
